@@ -2,6 +2,11 @@
 (src/props/cNN.rs); this table only holds what the runner needs."""
 
 PROPS = {
+    "C01": dict(level="exploration", shards=16, post="post_c01", thorough_layers=["asan", "miri"],
+                layer_cfg={"miri": dict(shards=16, timeout=3000), "asan": dict(shards=16, timeout=1800)}),
+    "C07": dict(level="exploration", shards=16, thorough_layers=[]),
+    "C08": dict(level="fault_enumeration", shards=16, thorough_layers=[]),
+    "C09": dict(level="exploration", shards=16, thorough_layers=[]),
     "C15": dict(level="exploration", shards=16, thorough_layers=["miri"], layer_cfg={"miri": dict(shards=8, timeout=2400)}),
     "C06": dict(level="fault_enumeration", shards=16, thorough_layers=[]),
     "C10": dict(level="fault_enumeration", shards=16, thorough_layers=[]),
